@@ -1446,6 +1446,134 @@ pub fn run(ctx: &Ctx) -> i32 {
         }
         beat("");
     }
+    // nothing is remembered about an argument that has died: a call on a temporary structure, a collection (the
+    // temporary is reclaimed), then a call on a new structure that is likely to occupy the same cells; the second
+    // answer must be the one a VM without that history gives
+    {
+        let firsts: Vec<String> = {
+            let a = "(list 10 'a 20 'b 30 'c 40 'd)";
+            vec![format!("(list? {})", a), format!("(length {})", a), format!("(memq 'c {})", a), format!("(list-ref {} 5)", a), format!("(list-tail {} 3)", a), "(vector-ref (vector 1 2 3 4 5 6) 4)".to_string()]
+        };
+        let seconds: Vec<String> = {
+            let bs = ["(list 1 2 3 4 5 6 7 8)", "(cons 92901 92901)", "(cons 1 (cons 2 3))", "(list (list 1) (list 2) (list 3) (list 4) (list 5) (list 6))"];
+            let mut v = vec![];
+            for b in bs {
+                v.push(format!("(list (list? {0}) (pair? {0}))", b));
+                v.push(format!("(list-ref {} 5)", b));
+                v.push(format!("(list-tail {} 3)", b));
+                v.push(format!("(list-ref {} 1)", b));
+                v.push(format!("(length {})", b));
+            }
+            // a list, then another structure, then the question about the first
+            v.push("(let ((l (list 10 20 30 40 50 60 70 80))) (list 'a 'b 'c 'd 'e 'f 'g 'h 'i 'j 'k 'l 'm 'n 'o 'p) (list (list-ref l 5) (list-tail l 6) (list? l)))".to_string());
+            v.push("(let ((l (list 10 20 30 40 50 60 70 80))) (vector 1 2 3) (list 'a 'b 'c) (list (list-ref l 4) (list-ref l 7) (length l)))".to_string());
+            v
+        };
+        let pairs: Vec<(usize, usize)> = (0..firsts.len()).flat_map(|i| (0..seconds.len()).map(move |j| (i, j))).collect();
+        let (firsts_ref, seconds_ref) = (&firsts, &seconds);
+        let a_dead = par_fold(
+            pairs.len() as u64,
+            8,
+            || (),
+            |_, acc, k| {
+                let (i, j) = pairs[k as usize];
+                let (f, s2) = (&firsts_ref[i], &seconds_ref[j]);
+                beat(&format!("{} ... {}", f, s2));
+                let want = Impl::new().eval_text(s2).show();
+                // 0..=24 cells are allocated (and kept) between the collection and the second call, so that the new
+                // structure slides over every cell the dead one occupied
+                for pad in 0..=(24 + 16 * 6) as usize {
+                    let collections = 1 + pad % 2;
+                    acc.evals += 1;
+                    let mut im = Impl::new();
+                    let _ = im.eval_text(f);
+                    // pads 25.. : garbage made after the temporary and before the collection instead (a list of g1 cells
+                    // and g2 strings): it decides how deep in the free list the dead structure's cells lie
+                    if pad > 24 {
+                        let (g1, g2) = ((pad - 25) % 16, (pad - 25) / 16);
+                        let _ = im.eval_text(&format!("(begin (let lp ((i 0) (a '())) (if (< i {}) (lp (+ i 1) (cons i a)) a)) {} 0)", g1, "(make-string 1 #\\a) ".repeat(g2)));
+                    }
+                    for _ in 0..collections {
+                        let vm = &mut im.vm;
+                        if std::panic::catch_unwind(std::panic::AssertUnwindSafe(|| vm.verif_collect_now())).is_err() {
+                            break;
+                        }
+                    }
+                    if pad <= 24 {
+                        let _ = im.eval_text(&format!("(define pad (make-vector {} 0))", pad));
+                        let _ = im.eval_text(&format!("(define pad2 (let lp ((i 0) (a '())) (if (< i {}) (lp (+ i 1) (cons i a)) a)))", pad));
+                    }
+                    let got = im.eval_text(s2).show();
+                    if got == want {
+                        acc.nontrivial += 1;
+                    } else {
+                        acc.violation(Violation {
+                            key: format!("dead-argument:{} | {} | {}", f, pad, s2),
+                            class: Some("answer-depends-on-a-dead-argument".into()),
+                            observed: if got.starts_with("panic") { "panic".into() } else { "differs-from-fresh-vm".into() },
+                            detail: json!({"session": [f, format!("<{} forced collection(s)>", collections), format!("<{} cells of padding>", pad), s2], "fresh_vm": want, "observed": got}),
+                        });
+                    }
+                }
+            },
+            Acc::merge,
+            acc_zero,
+        );
+        acc = Acc::merge(acc, a_dead);
+        // the same with a hunt: after the first call and a collection, thousands of fresh structures are made one after
+        // the other (each tested, then dropped), so that every free cell - the dead argument's among them - is occupied
+        // by a new structure at some point, in four phases of the allocation pattern
+        let hunts: Vec<(&str, &str)> = vec![
+            ("(cons n n)", "(and (not (list? b)) (pair? b))"),
+            ("(list n 1 2 3 4 5 6 7)", "(and (eqv? (list-ref b 5) 5) (equal? (list-tail b 6) '(6 7)) (list? b) (= (length b) 8) (eqv? (list-ref b 0) n))"),
+            // the same list made in other allocation orders (tail first; through append and reverse; with other cells
+            // allocated between its pairs), so that its pairs do not fall onto the dead list's in the same arrangement
+            ("(cons n (cons 1 (cons 2 (cons 3 (cons 4 (cons 5 (cons 6 (cons 7 '()))))))))", "(and (eqv? (list-ref b 5) 5) (equal? (list-tail b 6) '(6 7)) (eqv? (list-ref b 7) 7) (eqv? (list-ref b 0) n))"),
+            ("(append (list n 1 2) (reverse (list 7 6 5 4 3)))", "(and (eqv? (list-ref b 5) 5) (equal? (list-tail b 3) '(3 4 5 6 7)) (eqv? (list-ref b 7) 7))"),
+            ("(cons n (begin (cons 0 0) (cons 1 (begin (vector 0) (cons 2 (begin (cons 0 0) (cons 3 (cons 4 (begin (cons 0 0) (cons 5 (cons 6 (cons 7 '()))))))))))))", "(and (eqv? (list-ref b 5) 5) (equal? (list-tail b 6) '(6 7)) (eqv? (list-ref b 3) 3))"),
+            // two constructions in turn: what is remembered about a list of one construction meets a list of the other
+            ("(if (even? n) (list n 1 2 3 4 5 6 7) (cons n (begin (cons 0 0) (cons 1 (begin (vector 0) (cons 2 (begin (cons 0 0) (cons 3 (cons 4 (begin (cons 0 0) (cons 5 (cons 6 (cons 7 '())))))))))))))", "(and (eqv? (list-ref b 5) 5) (equal? (list-tail b 6) '(6 7)) (eqv? (list-ref b 3) 3) (eqv? (list-ref b 7) 7))"),
+            ("(if (even? n) (list n 1 2 3 4 5) (append (list n 1 2 3 4 5) (list 6 7 8 9)))", "(and (eqv? (list-ref b 4) 4) (equal? (list-tail b 5) (if (even? n) '(5) '(5 6 7 8 9))) (eqv? (list-ref b 2) 2))"),
+            ("(cons 1 (cons 2 n))", "(and (not (list? b)) (eqv? (cdr (list-tail b 1)) n))"),
+            ("(vector n 1 2 3)", "(and (not (list? b)) (eqv? (vector-ref b 0) n) (equal? (vector->list b) (list n 1 2 3)))"),
+        ];
+        let jobs: Vec<(usize, usize, usize)> = (0..firsts.len()).flat_map(|i| (0..hunts.len()).flat_map(move |h| (0..4usize).map(move |g| (i, h, g)))).collect();
+        let hunts_ref = &hunts;
+        let a_hunt = par_fold(
+            jobs.len() as u64,
+            1,
+            || (),
+            |_, acc, k| {
+                let (i, h, g) = jobs[k as usize];
+                let (make, check) = hunts_ref[h];
+                let garbage = "(cons 0 0) ".repeat(g);
+                let def = format!("(define (hunt n) (if (= n 0) 'all-agree (let ((b {})) (if {} (begin {}(hunt (- n 1))) (list 'differs n b)))))", make, check, garbage);
+                let f = &firsts_ref[i];
+                beat(&format!("{} ... hunt {}", f, make));
+                acc.evals += 1;
+                let mut im = Impl::new();
+                let _ = im.eval_text(&def);
+                let _ = im.eval_text(f);
+                let vm = &mut im.vm;
+                let _ = std::panic::catch_unwind(std::panic::AssertUnwindSafe(|| vm.verif_collect_now()));
+                let got = im.eval_text("(hunt 3000)").show();
+                if got == "all-agree" {
+                    acc.nontrivial += 1;
+                } else {
+                    acc.violation(Violation {
+                        key: format!("dead-argument-hunt:{} | {} | phase {}", f, make, g),
+                        class: Some("answer-depends-on-a-dead-argument".into()),
+                        observed: if got.starts_with("panic") { "panic".into() } else { "wrong-answer-for-a-fresh-structure".into() },
+                        detail: json!({"session": [def, f, "<forced collection>", "(hunt 3000)"], "expected": "all-agree", "observed": got}),
+                    });
+                }
+            },
+            Acc::merge,
+            acc_zero,
+        );
+        acc = Acc::merge(acc, a_hunt);
+        beat("");
+    }
     // a large container looked at, mutated in place, looked at again (each step its own evaluation, so the value is
     // converted for the host in between): the second look shows the mutation - as the value of an evaluation, through
     // write, and through eval of a quotation of it
@@ -1639,7 +1767,7 @@ pub fn run(ctx: &Ctx) -> i32 {
         rep.extra("beyond_the_bound", json!(format!("level {} expanded from {} of the {} states of the level before (hash order); not part of the exhaustive claim", depth_done + 1, k, total)));
     }
     rep.rule = format!(
-        "Breadth-first search to depth {} from 9 initial pools over a reference store model: 4 named slots holding scalars (0 1 a #t () #\\x, small integers) or references into a store of pairs and vectors (spine <= 3, vector length <= 3, <= 8 objects, acyclic), canonicalised by renaming locations in first-visit order and dropping unreachable objects (sound because the language cannot observe addresses). Alphabet: {} operation instances over the slots (cons car cdr set-car! set-cdr! list length append reverse list-tail list-ref memq memv member assq assv assoc map (3 procedures, 1 and 2 lists) for-each (1 and 2 lists) list? vector make-vector vector-length vector-ref vector-set! vector-fill! vector->list list->vector vector-copy (with start) vector-copy! (at, start, end incl. overlapping) equal?, apply with individual arguments before the list, and moves), indices from -1..len+1 and 2^62; an instance is enabled only where R7RS fixes the outcome. Every transition is executed on the real VM: the state is built from its canonical form, the operation applied, and the result (value vs required error) and the whole pool afterwards compared with the model: contents by value (also through equal? against the pool read as a literal, both ways round), identity by writing a marker through each object in turn and comparing which paths show it; the pool is also given to write and display and the datum that reaches the output must print like the dump. Large structures: equal? / member / assoc on lists and vectors of 10 .. 300 rows with the same row object on one side and separately allocated rows on the other (16 checks x 6 sizes). Large containers (10 .. 5000 elements) looked at, mutated in place (vector-set!, vector-fill!, a vector / string element of a list, set-car!) and looked at again as the value of an evaluation, through write and through eval of a quotation: every look shows what direct access shows. Stored values: 21 storing / copying expressions (vector-fill! also twice in a row and over the unfilled default, vector-set!, set-car!, set-cdr!, vector-copy!, make-vector, list->vector, vector->list, append, reverse, map, vector-copy, list-tail, list-ref, vector-ref, apply) x every ordered pair of 17 scalars (0 0.0 -0.0 1 1.0 -1 1/2 0.5 2 2.0 10^20 1e20 a \"s\" #\\x #t ()) x each produced as a literal or as the car of a fresh list, compared in written form so that exactness and the sign of zero show. Histories: from each initial pool every enabled operation followed, on the same objects and without rebuilding, by every operation that reads the first one's destination (or any operation after a mutator), with the same oracles. Shortest paths of a sub-set of states are replayed from the initial pool in a fresh VM (state reached by operations = state built directly). Non-trivial = a transition whose outcome and full pool observation agreed.",
+        "Breadth-first search to depth {} from 9 initial pools over a reference store model: 4 named slots holding scalars (0 1 a #t () #\\x, small integers) or references into a store of pairs and vectors (spine <= 3, vector length <= 3, <= 8 objects, acyclic), canonicalised by renaming locations in first-visit order and dropping unreachable objects (sound because the language cannot observe addresses). Alphabet: {} operation instances over the slots (cons car cdr set-car! set-cdr! list length append reverse list-tail list-ref memq memv member assq assv assoc map (3 procedures, 1 and 2 lists) for-each (1 and 2 lists) list? vector make-vector vector-length vector-ref vector-set! vector-fill! vector->list list->vector vector-copy (with start) vector-copy! (at, start, end incl. overlapping) equal?, apply with individual arguments before the list, and moves), indices from -1..len+1 and 2^62; an instance is enabled only where R7RS fixes the outcome. Every transition is executed on the real VM: the state is built from its canonical form, the operation applied, and the result (value vs required error) and the whole pool afterwards compared with the model: contents by value (also through equal? against the pool read as a literal, both ways round), identity by writing a marker through each object in turn and comparing which paths show it; the pool is also given to write and display and the datum that reaches the output must print like the dump. Large structures: equal? / member / assoc on lists and vectors of 10 .. 300 rows with the same row object on one side and separately allocated rows on the other (16 checks x 6 sizes). Dead arguments: 6 calls of list / vector procedures on a temporary structure, one or two forced collections, 0..24 cells of padding after the collection or 0..15 cells and 0..5 strings of garbage before it (so that the next structure slides over the cells the dead one occupied), then 22 calls on a new structure (list, pair, improper list, nested list): the answer is the one a fresh VM gives; and a hunt: after each of the 6 calls and a collection, 3000 fresh pairs / lists / improper lists / vectors are made, tested and dropped one after the other in four allocation phases, so that every free cell is occupied by a new structure at some point. Large containers (10 .. 5000 elements) looked at, mutated in place (vector-set!, vector-fill!, a vector / string element of a list, set-car!) and looked at again as the value of an evaluation, through write and through eval of a quotation: every look shows what direct access shows. Stored values: 21 storing / copying expressions (vector-fill! also twice in a row and over the unfilled default, vector-set!, set-car!, set-cdr!, vector-copy!, make-vector, list->vector, vector->list, append, reverse, map, vector-copy, list-tail, list-ref, vector-ref, apply) x every ordered pair of 17 scalars (0 0.0 -0.0 1 1.0 -1 1/2 0.5 2 2.0 10^20 1e20 a \"s\" #\\x #t ()) x each produced as a literal or as the car of a fresh list, compared in written form so that exactness and the sign of zero show. Histories: from each initial pool every enabled operation followed, on the same objects and without rebuilding, by every operation that reads the first one's destination (or any operation after a mutator), with the same oracles. Shortest paths of a sub-set of states are replayed from the initial pool in a fresh VM (state reached by operations = state built directly). Non-trivial = a transition whose outcome and full pool observation agreed.",
         depth_done, ops.len()
     );
     rep.assumptions.push("memq/assq/memv/assv get keys on which eq?/eqv? are fully specified; vector-copy's end argument is excluded (pinned non-R7RS meaning); calls whose outcome R7RS leaves open (car of a non-pair, assq on a list with non-pair elements, ...) are not enabled".into());
